@@ -16,7 +16,7 @@ EXPLANATION = (
     "identifier, and remove it; the window rejection is an ORDERING comparison of the number of pending requests with the "
     "current window that dominates every effect and raises MQTTWindowError; lifecycle: a window that a non-clean loss does "
     "not drain must be re-sent by the resume path and drained by the clean-start purge. Decides the structural clauses; "
-    "interleavings are not explored.")
+    "interleavings are not explored. S-FRAME: the premises of the framing lemma (every rule of C03) hold, a necessary condition of anything said about inbound packets.")
 ASSUMPTIONS = ["the window size can be lowered at any time (setWindowSize), so an equality test does not bound the window"]
 
 KIND = {"subscribe": ("windowSubscribe", "SUBSCRIBE", "SUBACK"), "unsubscribe": ("windowUnsubscribe", "UNSUBSCRIBE", "UNSUBACK")}
